@@ -43,6 +43,9 @@ template <class X> struct Runner {
         UriBox<X> A, B;             // const inputs
         int rc = 0; bool reached = false;
         ctl.disarm(); ctl.clear_events();
+        // alternate between: really released and poisoned (a touch of released memory derails or is an ASan report) and quarantined but
+        // readable (a walk over an already released list ends in *recorded* second releases instead of a crash)
+        if (ctl.L) { bool q = ((k + (from ? 1 : 0)) & 1) != 0; ctl.L->quarantine = q; ctl.L->poison_on_free = !q; }
         size_t base_out = ctl.outstanding();
         LibcWatch& lwAll = libc_watch(); uint64_t lw_allocs0 = lwAll.allocs, lw_frees0 = lwAll.frees, lw_bad0 = lwAll.bad_free;
         auto after = [&](const char* cleanupWhat) {
@@ -55,8 +58,13 @@ template <class X> struct Runner {
             (void)cleanupWhat;
         };
         auto verdict = [&]() {
-            if (ctl.outstanding() != base_out) { c->violation("C14", fmt("fault/%s/%s/leak-after-cleanup%s", X::tag(), CALLNAME[p.call], k == 0 ? "-fault-free" : ""), what + fmt(" %zu block(s) outstanding", ctl.outstanding() - base_out)); ctl.drop_all(); }
-            if (ctl.bad_free()) { c->violation("C14", fmt("fault/%s/%s/bad-release", X::tag(), CALLNAME[p.call]), what + (ctl.L ? " " + ctl.L->bad_free_note : Str(" libc free of unknown pointer"))); ctl.clear_events(); }
+            // ledger discipline is C14's clause on the failure paths and C13's on every path ("released through the same manager with
+            // exactly the pointer it returned ... after the matching release call no block is outstanding")
+            if (ctl.outstanding() != base_out) { Str key = fmt("fault/%s/%s/leak-after-cleanup%s", X::tag(), CALLNAME[p.call], k == 0 ? "-fault-free" : ""), det = what + fmt(" %zu block(s) outstanding", ctl.outstanding() - base_out);
+                c->violation("C14", key, det); c->violation("C13", key, det); ctl.drop_all(); }
+            if (ctl.bad_free()) { Str key = fmt("fault/%s/%s/bad-release", X::tag(), CALLNAME[p.call]), det = what + (ctl.L ? " " + ctl.L->bad_free_note : Str(" libc free of unknown pointer"));
+                c->violation("C14", key, det); c->violation("C13", key, det); ctl.clear_events(); }
+            if (ctl.L) ctl.L->drain_quarantine();
             // C13 on the failure paths too: with a custom manager nothing may go to the C library allocator
             if (ctl.L && lwAll.available && (lwAll.allocs != lw_allocs0 || lwAll.frees != lw_frees0 || lwAll.bad_free != lw_bad0)) {
                 c->violation("C13", fmt("fault/%s/%s/libc-allocator-used-with-custom-manager", X::tag(), CALLNAME[p.call]), what + fmt(" libc allocs=%llu frees=%llu frees-of-foreign-blocks=%llu", (unsigned long long)(lwAll.allocs - lw_allocs0), (unsigned long long)(lwAll.frees - lw_frees0), (unsigned long long)(lwAll.bad_free - lw_bad0)));
